@@ -1,8 +1,8 @@
 (* C05 - load errors are localised: trails are exact and, in ALL mode, complete.
-   Statements only; proofs in Proofs/TrailProofs.v over Model/Load.v (error trees with relative trails re-based at
+   Statements only; proofs in Proofs/TrailProofs.v and Proofs/CompleteProofs.v over Model/Load.v (error trees with relative trails re-based at
    every container exactly as append_trail does; ItemKey for dict keys). *)
 From Coq Require Import List ZArith Bool String.
-From AV Require Import Model.Val Model.Load Proofs.LoadProofs Proofs.TrailProofs.
+From AV Require Import Model.Val Model.Load Proofs.LoadProofs Proofs.TrailProofs Proofs.CompleteProofs.
 Import ListNotations.
 
 (* FIRST and ALL: following the (concatenated) trail of every reported leaf error from the root of the input datum
@@ -50,3 +50,47 @@ Example C05_example :
   /\ follow true v [ItemKey (VInt 7)] = Some (VInt 7)
   /\ follow true v [Key (VInt 7); Idx 0] = Some VNone.
 Proof. repeat split; vm_compute; reflexivity. Qed.
+
+(* ---- ALL is complete at every nesting depth ----
+   The leaves (trail, class, input) of the error ALL raises for a container are exactly the leaves of the errors of its
+   children that fail (errl r = the leaves of r's error, nothing when r succeeded), each once, in order, with the
+   child's position put in front of the trail.  Unfolded down the type these five equations give the complete set of
+   leaves reported for any nested datum: every independently invalid part is reported, and exactly once.
+   (U is arbitrary here: no assumption on user loaders is needed when an error was raised.) *)
+Theorem C05_all_leaves_of_iterable : forall (U : nat -> pv -> res) sc k t v l e,
+  iter_view sc v = Items l -> load U All sc (TIter k t) v = Err e ->
+  leaves e = elems_leaves (load U All sc t) 0 l.
+Proof. exact all_leaves_iter. Qed.
+Print Assumptions C05_all_leaves_of_iterable.
+
+Theorem C05_all_leaves_of_fixed_tuple : forall (U : nat -> pv -> res) sc ts v l e,
+  iter_view sc v = Items l -> List.length l = List.length ts -> load U All sc (TTuple ts) v = Err e ->
+  leaves e = zip_leaves 0 (map (fun t1 => load U All sc t1) ts) l.
+Proof. exact all_leaves_tuple. Qed.
+Print Assumptions C05_all_leaves_of_fixed_tuple.
+
+(* dict: a bad key is reported under ItemKey k and, independently, a bad value under Key k *)
+Theorem C05_all_leaves_of_dict : forall (U : nat -> pv -> res) sc tk tv kvs e,
+  load U All sc (TDict tk tv) (VDict kvs) = Err e ->
+  leaves e = items_leaves (load U All sc tk) (load U All sc tv) kvs.
+Proof. exact all_leaves_dict. Qed.
+Print Assumptions C05_all_leaves_of_dict.
+
+Theorem C05_all_leaves_of_optional : forall (U : nat -> pv -> res) sc t v e,
+  load U All sc (TOpt t) v = Err e -> leaves e = ([], TypeLE, Some v) :: errl (load U All sc t v).
+Proof. exact all_leaves_optional. Qed.
+Print Assumptions C05_all_leaves_of_optional.
+
+Theorem C05_all_leaves_of_union : forall (U : nat -> pv -> res) sc ts v e,
+  ts <> [] -> load U All sc (TUnion ts) v = Err e -> leaves e = flat_map (fun t1 => errl (load U All sc t1 v)) ts.
+Proof. exact all_leaves_union. Qed.
+Print Assumptions C05_all_leaves_of_union.
+
+(* non-vacuity: the three leaves of the example above, by the equations' right-hand side *)
+Example C05_all_leaves_example :
+  let U := fun (_ : nat) (v : pv) => Ok v in
+  items_leaves (load U All true TStr) (load U All true (TIter KList TInt))
+               [(VStr "a", VList [VInt 1; VStr "x"]); (VInt 7, VList [VNone])]
+  = [([Key (VStr "a"); Idx 1], TypeLE, Some (VStr "x")); ([ItemKey (VInt 7)], TypeLE, Some (VInt 7));
+     ([Key (VInt 7); Idx 0], TypeLE, Some VNone)].
+Proof. vm_compute. reflexivity. Qed.
